@@ -111,12 +111,14 @@ def _tv_run_impl(cls_name, circ, pre, ops):
     for k, o in enumerate(ops):
         x = _tv_input(o["shape"], o["dt"], k)
         before = (tv.G, tv.WP)
+        cfg_before = cc.snapshot((tv.circular, tv.axes, type(tv.norm).__name__))
         rec = {}
         try:
             val = tv(x) if o["k"] == "call" else tv.prox(x, 0.5)
             rec["val"] = cc.canon(val)
         except Exception as e:  # noqa: BLE001
             rec["err"] = common.err_kind(e) + ":" + type(e).__name__
+        rec["cfg_changed"] = cc.snapshot((tv.circular, tv.axes, type(tv.norm).__name__)) != cfg_before
         rec["rebuilt"] = (tv.G is not before[0]) if o["k"] == "call" else (tv.WP is not before[1])
         rec["G"] = None if tv.G is None else _opkey(tv.G)
         rec["P"] = None if tv.WP is None else _opkey(tv.WP)
@@ -136,6 +138,8 @@ def _oracle_tv(case):
     res = _tv_run_impl(case["cls"], case["circ"], case["pre"], case["ops"])
     for k, r in enumerate(res):
         rt = 2e-4 if case["ops"][k]["dt"] in ("float32", "complex64") else 1e-9
+        if r.get("cfg_changed"):
+            return {"case": case, "step": k, "what": "the call changed the configuration attributes (circular/axes/norm) of the TV norm object"}
         if ("err" in r) != ("fresh_err" in r):
             return {"case": case, "step": k, "used_object": r.get("err", "ok"), "fresh_object": r.get("fresh_err", "ok"),
                     "what": "call after this history behaves differently from a fresh object"}
@@ -182,7 +186,7 @@ def _tv_case(ctx, model, case):
         ai = {"rebuilt": a["rebuilt"], "G": a["G"], "P": a["P"]}
         bi = {"rebuilt": b["rebuilt"], "G": b["G"], "P": b["P"]}
         rt = 2e-4 if o["dt"] in ("float32", "complex64") else 1e-9
-        bad_state = ai != bi
+        bad_state = ai != bi or a.get("cfg_changed", False)
         bad_val = ("err" in a) != ("fresh_err" in a) or ("val" in a and not cc.same(a["val"], a["fresh"], rt))
         if bad_state or bad_val:
             ctx.disagree("cache.tv." + ("state" if bad_state else "value"), {**case, "at": k}, {**ai, "err": a.get("err")}, bi, oracle=_oracle_tv)
@@ -831,6 +835,34 @@ def _corr_mutation(ctx):
 # ==============================================================================================
 
 
+def _corr_option_leak(ctx):
+    """constructor options must not leak into objects constructed later with defaults (run FIRST, before any other
+    part of the check constructs such objects with options)"""
+    import jax.numpy as jnp
+
+    import cache_catalog as cc
+    from scico import loss
+    from scico.optimize import admm as admmaux
+
+    y = jnp.arange(4.0)
+    probes = [
+        ("LinearSubproblemSolver.cg_kwargs", lambda **k: admmaux.LinearSubproblemSolver(**k), "cg_kwargs", {"cg_kwargs": {"tol": 1e-9, "maxiter": 7}}),
+        ("GenericSubproblemSolver.minimize_kwargs", lambda **k: admmaux.GenericSubproblemSolver(**k), "minimize_kwargs", {"minimize_kwargs": {"options": {"maxiter": 3}}}),
+        ("SquaredL2Loss.prox_kwargs", lambda **k: loss.SquaredL2Loss(y=y, **k), "prox_kwargs", {"prox_kwargs": {"maxiter": 5, "tol": 1e-9}}),
+    ]
+    for name, mk, attr, opts in probes:
+        d0 = cc.snapshot(getattr(mk(), attr))
+        with_opts = mk(**opts)
+        after = mk()
+        d1 = cc.snapshot(getattr(after, attr))
+        case = {"kind": "option-leak", "probe": name}
+        ctx.case(case, ("option-leak", name))
+        ctx.count("mutation:option-leak-probe")
+        if d0 != d1 or getattr(with_opts, attr) is getattr(after, attr):
+            ctx.disagree("cache.mutation.option-leak", case, "defaults of a later object changed / dict shared", "unchanged",
+                         oracle=lambda c: {"probe": c["probe"], "options": repr(opts), "what": "options given to one constructor call changed the defaults seen by a later default-constructed object"})
+
+
 def _run_corpus(ctx, model):
     d = common.CORPUS_DIR / PROP
     if not d.exists():
@@ -852,6 +884,7 @@ def _run_corpus(ctx, model):
 
 def correspond(ctx, model):
     common.setup_scico()
+    _corr_option_leak(ctx)
     _run_corpus(ctx, model)
     _corr_tv(ctx, model)
     _corr_loss(ctx, model)
